@@ -89,6 +89,24 @@ def gen_temp_all(m, a, b):
     return r
 
 
+def gen_close_no_builtins(m, a, b):
+    """close() of a native generator after `del builtins.GeneratorExit, builtins.StopIteration`
+    (CPython's own generators do not look these names up).  Run in its own child process."""
+    import builtins
+    saved = builtins.GeneratorExit, builtins.StopIteration
+    g = m.gen_two(a)
+    next(g)
+    del builtins.GeneratorExit
+    del builtins.StopIteration
+    try:
+        g.close()
+    except AttributeError:
+        pass          # the compiled generator looks the names up; an exception is acceptable, a crash is not
+    finally:
+        builtins.GeneratorExit, builtins.StopIteration = saved
+    return None
+
+
 def gen_lit(m, a, b):
     g = m.gen_lit_bytes()
     next(g)
@@ -206,6 +224,7 @@ CASES = [
     ("gen_try.throw", "gen_try", ANY, gen_throw, False),
     ("gen_temp.all", "gen_temp", ANY, gen_temp_all, False),
     ("gen_temp.abandon", "gen_temp", ANY, gen_abandon, False),
+    ("gen_close_no_builtins", "gen_two", ("inst",), gen_close_no_builtins, True),
     ("gen_lit_bytes", "gen_lit_bytes", ("lit_bytes",), gen_lit, False),
     ("gen_lit_tuple", "gen_lit_tuple", ("lit_tuple",), gen_lit_t, False),
 ]
@@ -233,14 +252,31 @@ def measure(m, call, a, b, n):
     return outs, delta
 
 
+ISOLATED = {"gen_close_no_builtins"}    # cases that may kill the process: only run when asked for by name
+
+
 def main():
     modname, n, seed = sys.argv[1], int(sys.argv[2]), int(sys.argv[3])
+    only = sys.argv[4] if len(sys.argv) > 4 else None
     m = importlib.import_module(modname)
     rnd = random.Random(seed)
+    global CASES
+    if modname == "c06gen":
+        # the generated family: every function with every combination of (callee behaviour, flag)
+        CASES = []
+        i = 0
+        while hasattr(m, "g%d" % i):
+            for fname, fobj in (("ok", ok), ("VE", VE), ("KE", KE)):
+                for c in (False, True):
+                    CASES.append(("g%d.%s.%d" % (i, fname, c), "g%d" % i, ("inst", "int"),
+                                  (lambda m, a, b, i=i, fobj=fobj, c=c: getattr(m, "g%d" % i)(a, b, fobj, c)), False))
+            i += 1
     order = list(range(len(CASES)))
     rnd.shuffle(order)   # the seed only permutes the order of the cases
     for ci in order:
         name, fn, kinds, call, typed = CASES[ci]
+        if (name != only) if only else (name in ISOLATED):
+            continue
         for kind in kinds:
             if kind == "lit_bytes":
                 a, b = m.lit_bytes(), T(0)
